@@ -315,6 +315,8 @@ pub fn run<S: IterSink + 'static>(prog: &Program, cfg: &Cfg, sink: S) -> (RunSum
                     for (i, x) in fp.iter().enumerate() {
                         r.notes.push((200, i as u64, *x as u64));
                     }
+                    let (ex, sk) = loom::verif::path_flags();
+                    r.notes.push((202, ex as u64, sk as u64));
                     let id = format!("{:?}", loom::thread::current().id());
                     r.notes.push((201, 0, if id == "ThreadId(0)" { 0 } else { 1 }));
                 }
